@@ -138,7 +138,8 @@ class St:
 
     def R(self, n):
         if n == 15:
-            return (self.loc["R.PC"] + (4 if self.thumb() else 8)) & 0xFFFFFFFF
+            # Thumb and ThumbEE state (CPSR.T = 1) read the PC as the instruction address + 4, ARM state as + 8
+            return (self.loc["R.PC"] + (4 if self.T == 1 else 8)) & 0xFFFFFFFF
         return self.loc[phys(n, self.M)]
 
     def Rmode(self, n, mode):
